@@ -18,10 +18,12 @@ pub enum Slice {
     Sizing(usize),
     /// rows in which the repeated field with this index holds many items
     Repeat(usize),
+    /// present positional optionals whose first byte equals a tag of the struct
+    Collide,
 }
 
 pub fn slices(table: &Table, ty: &TypeDef) -> Vec<Slice> {
-    let mut out = vec![Slice::Baseline, Slice::AllPresent];
+    let mut out = vec![Slice::Baseline, Slice::AllPresent, Slice::Collide];
     for i in 0..ty.fields.len() {
         out.push(Slice::First(i));
     }
@@ -43,6 +45,11 @@ pub fn visit_slice(table: &Table, ty: &TypeDef, slice: &Slice, k: usize, f: &mut
                 for vlen in 1..=3 {
                     f(&all_present(table, ty, pick, vlen), "all-present");
                 }
+            }
+        }
+        Slice::Collide => {
+            for v in tag_collisions(table, ty) {
+                f(&v, "tag-collision");
             }
         }
         Slice::Repeat(i) => {
